@@ -901,6 +901,47 @@ pub fn run(cfg: &RunCfg) -> Report {
             }
         }
     }
+    // the TypeScript backend names an enumeral in a constant as `Type.member`: the member has to be one the enum declares, and
+    // the string it stands for (`member = "asn-name"`) has to be the enumeral written in the source
+    {
+        let enum_cases: Vec<usize> = (0..cases.len()).filter(|i| cases[*i].kind.starts_with("enumeral") && matches!(cases[*i].site, Site::Const(_))).collect();
+        for chunk in enum_cases.chunks(100) {
+            let text = format!("C07-Mod DEFINITIONS AUTOMATIC TAGS ::= BEGIN\n{SUPPORT}{}\nEND\n", chunk.iter().map(|i| cases[*i].asn.clone()).collect::<Vec<_>>().join("\n"));
+            if let Outcome::Ok { generated, .. } = compile_ts(&[text]) {
+                let sq: String = generated.split_whitespace().collect::<Vec<_>>().join(" ");
+                // enum declarations: name -> member -> string
+                let mut enums: BTreeMap<String, BTreeMap<String, String>> = BTreeMap::new();
+                for part in sq.split("export enum ").skip(1) {
+                    let Some((name, rest)) = part.split_once(' ') else { continue };
+                    let Some(body) = rest.trim_start().strip_prefix('{').and_then(|b| b.split('}').next()) else { continue };
+                    let mut ms = BTreeMap::new();
+                    for m in body.split(',') {
+                        if let Some((k, v)) = m.split_once('=') {
+                            ms.insert(k.trim().to_string(), v.trim().trim_matches('"').to_string());
+                        }
+                    }
+                    enums.insert(name.trim().to_string(), ms);
+                }
+                for i in chunk {
+                    let Site::Const(n) = &cases[*i].site else { continue };
+                    let name = n.to_lowercase();
+                    let Some(pos) = sq.find(&format!("export const {name} = ")) else { continue };
+                    let init: String = sq[pos + format!("export const {name} = ").len()..].chars().take_while(|c| *c != ';').collect();
+                    rep.evaluations += 1;
+                    rep.count("typescript:enumerated-constant");
+                    // source enumeral: the last word of the assignment
+                    let asn_enumeral = cases[*i].asn.split_whitespace().last().unwrap_or("").to_string();
+                    let ok = match init.trim().split_once('.') {
+                        Some((ty, member)) => enums.get(ty.trim()).and_then(|ms| ms.get(member.trim())).map(|s| *s == asn_enumeral).unwrap_or(false),
+                        None => false,
+                    };
+                    if !ok {
+                        rep.unsat("", false, json!({"why": format!("TypeScript constant `{name} = {}` does not name a declared member that stands for the enumeral `{asn_enumeral}`", init.trim()), "case": {"asn1": cases[*i].asn, "src": cases[*i].src, "observed": init.trim(), "const": null, "default_fn": null, "kind": "typescript-enumerated-constant"}}));
+                    }
+                }
+            }
+        }
+    }
     // the model of the linker on the composite cases: what it links = what the implementation's initialiser denotes
     match run_driver(&link_reqs) {
         Ok(ans) => {
